@@ -62,6 +62,30 @@ nni_pollable_clear(nni_pollable *p)
 	}
 }
 
+// Bring a pipe that getfd has just installed in line with the flag.  Raise
+// and clear can run concurrently with getfd (it holds no lock), and once the
+// pipe is installed they act on it, so a single test of the flag is not
+// enough: the flag can be cleared (and the still empty pipe drained) between
+// our test and our write, which would leave the descriptor readable with the
+// flag down until the next raise and clear.  So repeat until the flag did not
+// change while we acted on it.
+static void
+pollable_sync(nni_pollable *p, int wfd, int rfd)
+{
+	for (;;) {
+		bool raised = nni_atomic_get_bool(&p->p_raised);
+
+		if (raised) {
+			nni_plat_pipe_raise(wfd);
+		} else {
+			nni_plat_pipe_clear(rfd);
+		}
+		if (nni_atomic_get_bool(&p->p_raised) == raised) {
+			return;
+		}
+	}
+}
+
 nng_err
 nni_pollable_getfd(nni_pollable *p, int *fdp)
 {
@@ -85,9 +109,7 @@ nni_pollable_getfd(nni_pollable *p, int *fdp)
 		fds = FD_JOIN(wfd, rfd);
 
 		if (nni_atomic_cas64(&p->p_fds, (uint64_t) -1, fds)) {
-			if (nni_atomic_get_bool(&p->p_raised)) {
-				nni_plat_pipe_raise(wfd);
-			}
+			pollable_sync(p, wfd, rfd);
 			*fdp = rfd;
 			return (NNG_OK);
 		}
